@@ -52,7 +52,9 @@ func genDistribution(r *hx.R) inflationtypes.InflationDistribution {
 }
 
 func genFactors(r *hx.R) []sdkmath.LegacyDec {
-	switch r.Pick(4) {
+	switch r.Pick(5) {
+	case 4: // positive but tiny: around (and mostly below) one unibi per epoch, so that floor(polynomial*10^6/EpochsPerPeriod) is 0, 1, 2…
+		return []sdkmath.LegacyDec{sdkmath.LegacyNewDecFromBigIntWithPrec(big.NewInt(r.Range(1, 40_000_000)), 12)}
 	case 0:
 		return inflationtypes.DefaultParams().PolynomialFactors
 	case 1: // constant
